@@ -92,6 +92,7 @@ def run(tier, selftest=False, only=None):
         n = 300 if tier == "quick" else 4000
         ms = single_flag_models(rng, n)
         cs = [(m, [[rng.choice([Fr(1), Fr(2), Fr(3), Fr(1, 2), Fr(3, 2)]) for _ in range(m.ncells())] for _ in m.species]) for m in ms]
+        rd_law.model_check(rep, cs, "C03")
         spec = rd_eval.evaluate("flaw", rd_law.spec_items(cs), rep)
         impl = rd_law.impl_values(cs)
         rd_law.compare(rep, cs, spec, impl, "single-flag-law")
